@@ -333,6 +333,21 @@ def contracts(env):
     return cs
 
 
+def extra(rep, tier, seed, budget):
+    # create_branch orders development branches with DevelopmentBranch.__lt__ (contract of C09); rebuild re-submits
+    # QueueCollection.queued_prs (bounded: clause d of bounded/c05_queue.py)
+    from pyvc import cli as _cli
+    from specs import c09 as _c09
+    _e09 = _c09.base_env()
+    for _c in _c09.contracts(_e09):
+        if 'DevelopmentBranch' in _c.label:
+            _c.label = _c.label + ' [C20 ordering used by create_branch]'
+            _cli.handle_function(rep, _c09, _e09, _c, budget, _cli.load_lock().get('C20', {}))
+    from bounded import c05_queue as _q
+    from specs import c05 as _c05
+    _c05.integrate(rep, _q.run(tier, seed), clauses=('d',))
+
+
 META = {
     'level': 'other',
     'explanation': 'Contracts over a ghost effect trace: every refusal (JobFailure / NothingToDo / NotMyJob) is '
